@@ -42,6 +42,9 @@ def run_family(pid, tier, seed, families, invariants, live=None, assumptions=(),
     with vlib.Scratch(pid) as sc:
         vlib.stage_specs(sc)
         for fam in families:
+            if len(verdict.violations) > 60:
+                log("[stop] %d violations already: the remaining configuration families are skipped" % len(verdict.violations))
+                break
             p = dict(fam["params"])
             # ---- (C) exhaustive model check of this configuration
             pm = dict(p, maxlen=fam["mc_len"][1 if thorough else 0])
